@@ -23,6 +23,9 @@ var c05Ecos = []string{"npm", "cargo", "composer", "conan", "gem", "hex", "pypi"
 
 func numHead3(s string) (string, string) {
 	s = strings.TrimLeft(strings.TrimSpace(s), "=v")
+	if k := strings.Index(s, "!"); k > 0 && strings.Trim(s[:k], "0123456789") == "" {
+		s = s[k+1:] // PEP 440 epoch: probes are built with the same epoch (see c05Probe)
+	}
 	i := 0
 	for i < len(s) && (s[i] == '.' || (s[i] >= '0' && s[i] <= '9')) {
 		i++
@@ -48,7 +51,7 @@ func numHead3(s string) (string, string) {
 
 var plainStable = regexp.MustCompile(`^v?[0-9]+(\.[0-9]+){0,3}$`)
 var conanNumericParts = regexp.MustCompile(`^[0-9]+(\.[0-9]+)*(-[0-9a-z.-]+)?(\+[0-9a-z.-]+)?$`)
-var pypiFinalOrPost = regexp.MustCompile(`^[0-9]+(\.[0-9]+)*(\.?post[0-9]+)?$`)
+var pypiFinalOrPost = regexp.MustCompile(`^([0-9]+!)?[0-9]+(\.[0-9]+)*(\.?post[0-9]+)?$`)
 
 // isPreOf: probe is spelled as a pre-release of the version `of` (same numbers, some pre-release marker).
 func isPreOf(ecoName, probe, of string) bool {
@@ -145,6 +148,69 @@ func init() {
 		}
 		if got := r.Contains(pv); got != want {
 			return true, fmt.Sprintf("%q contains %q = %v, documented interval %s gives %v", sh.Text, probe, got, ivString(sh.Iv), want)
+		}
+		return false, ""
+	})
+}
+
+// comboSeps: AND separators with which a shorthand can be combined with a comparator.
+var comboSeps = map[string][]string{
+	"npm": {" "}, "cargo": {",", ", "}, "composer": {" ", ",", ", "}, "conan": {",", " ", ", "}, "gem": {",", ", "}, "hex": {" ", " and "}, "pypi": {",", ", "},
+}
+
+func init() {
+	// combo: a shorthand joined with one comparator by the ecosystem's AND separator denotes the intersection.
+	// inputs [kind, probe, JSON args, op, bound, separator, order("sf" shorthand first | "cf" comparator first)]
+	registerCheck("C05", "combo", func(c known.Case) (bool, string) {
+		e := eco.ByName(c.Eco)
+		kind, probe, op, bound, sep, order := c.Inputs[0], c.Inputs[1], c.Inputs[3], c.Inputs[4], c.Inputs[5], c.Inputs[6]
+		var args []string
+		if err := json.Unmarshal([]byte(c.Inputs[2]), &args); err != nil {
+			return false, "bad args"
+		}
+		sh, ok := model.MakeShorthand(c.Eco, kind, args)
+		if !ok {
+			return false, "unknown construct"
+		}
+		if cl, why := c05Claimed(c.Eco, kind, args, sh, probe); !cl {
+			return false, why
+		}
+		okSep := false
+		for _, x := range comboSeps[c.Eco] {
+			okSep = okSep || x == sep
+		}
+		if !okSep || !gen.BoundInScope(c.Eco, bound) {
+			return false, "separator or bound out of scope"
+		}
+		pv, err := e.NewVersion(probe)
+		if err != nil {
+			return false, "probe rejected"
+		}
+		bv, err := e.NewVersion(bound)
+		if err != nil {
+			return false, "bound rejected"
+		}
+		inIv, err := sh.Iv.Contains(func(b string) (int, error) {
+			x, err := e.NewVersion(b)
+			if err != nil {
+				return 0, err
+			}
+			return pv.Compare(x), nil
+		})
+		if err != nil {
+			return false, "interval bound not parseable"
+		}
+		want := inIv && gen.Cmp{Op: op, Bound: bound}.Holds(sign(pv.Compare(bv)))
+		text := sh.Text + sep + op + bound
+		if order == "cf" {
+			text = op + bound + sep + sh.Text
+		}
+		r, err := e.NewRange(text)
+		if err != nil {
+			return false, "combination not supported by the parser (not claimed)"
+		}
+		if got := r.Contains(pv); got != want {
+			return true, fmt.Sprintf("%q contains %q = %v, but %s intersected with %s%s gives %v", text, probe, got, ivString(sh.Iv), op, bound, want)
 		}
 		return false, ""
 	})
@@ -250,7 +316,16 @@ func c05Construct(rt *rapid.T, name string) (string, []string) {
 		}
 		return "pess", append(append([]string{}, []string{x, y, z}[:n]...), pre)
 	case "pypi":
-		switch rapid.IntRange(0, 3).Draw(rt, "k") {
+		switch rapid.IntRange(0, 4).Draw(rt, "k") {
+		case 4:
+			ep := gen.Pick(rt, "ep", "1", "2")
+			if gen.Chance(rt, "epk", 1, 2) {
+				n := rapid.IntRange(2, 4).Draw(rt, "arity")
+				suf := gen.Pick(rt, "suf", "", "", ".post3", "a4")
+				return "compat-epoch", append(append([]string{ep}, []string{x, y, z, w}[:n]...), suf)
+			}
+			n := rapid.IntRange(1, 3).Draw(rt, "arity")
+			return "prefix-epoch", append([]string{ep}, []string{x, y, z}[:n]...)
 		case 0, 1:
 			n := rapid.IntRange(2, 4).Draw(rt, "arity")
 			suf := gen.Pick(rt, "suf", "", "", "", ".post3", "a4", "rc1", ".post0")
@@ -323,7 +398,22 @@ func c05PreSuffix(rt *rapid.T, name string) string {
 
 // c05Probe draws a probe around the interval's boundaries.
 func c05Probe(rt *rapid.T, e eco.Eco, sh model.Shorthand) string {
+	p := c05ProbeNoEpoch(rt, e, sh)
+	// PEP 440 epoch of the construct: most probes share it, some do not
+	if k := strings.Index(sh.Iv.Lo, "!"); e.Name == "pypi" && k > 0 && !strings.Contains(p, "!") && gen.Chance(rt, "sameEpoch", 5, 6) {
+		p = sh.Iv.Lo[:k+1] + p
+	}
+	return p
+}
+
+func c05ProbeNoEpoch(rt *rapid.T, e eco.Eco, sh model.Shorthand) string {
 	lo, hi := sh.Iv.Lo, strings.TrimSuffix(sh.Iv.Hi, "-0")
+	if k := strings.Index(lo, "!"); e.Name == "pypi" && k > 0 {
+		lo = lo[k+1:]
+		if k2 := strings.Index(hi, "!"); k2 > 0 {
+			hi = hi[k2+1:]
+		}
+	}
 	pick := func(xs ...string) string {
 		var ys []string
 		for _, x := range xs {
@@ -430,6 +520,41 @@ func TestC05(t *testing.T) {
 			kc := known.Case{Check: "interval", Eco: e.Name, Inputs: []string{kind, probe, string(aj)}}
 			if !r.check(rt, kc) {
 				return
+			}
+			if seps := comboSeps[e.Name]; len(seps) > 0 && kind != "hyphen" && kind != "star" && gen.Chance(rt, "combo", 1, 3) {
+				// the same shorthand joined with a comparator whose bound lies near the interval
+				var bound string
+				switch rapid.IntRange(0, 2).Draw(rt, "cbk") {
+				case 0:
+					bound = lastBefore(strings.TrimSuffix(sh.Iv.Hi, "-0"))
+				case 1:
+					h, _ := numHead3(sh.Iv.Lo)
+					pp := strings.Split(h, ".")
+					pp[len(pp)-1] = strconv.Itoa(atoiOK(pp[len(pp)-1]) + rapid.IntRange(0, 3).Draw(rt, "cbd"))
+					bound = strings.Join(pp, ".")
+				default:
+					h, _ := numHead3(probe)
+					bound = h
+				}
+				if k := strings.Index(sh.Iv.Lo, "!"); e.Name == "pypi" && k > 0 {
+					bound = sh.Iv.Lo[:k+1] + bound
+				}
+				ops := gen.Syntax[e.Name].Ops
+				op := gen.Pick(rt, "cop", ops...)
+				sep := gen.Pick(rt, "csep", seps...)
+				order := gen.Pick(rt, "cord", "sf", "cf")
+				if _, err := e.NewVersion(bound); err == nil && gen.BoundInScope(e.Name, bound) {
+					kc2 := known.Case{Check: "combo", Eco: e.Name, Inputs: []string{kind, probe, string(aj), op, bound, sep, order}}
+					text := sh.Text + sep + op + bound
+					if order == "cf" {
+						text = op + bound + sep + sh.Text
+					}
+					if _, err := e.NewRange(text); err != nil {
+						r.ev.Count("combination_not_supported_by_parser", 1)
+					} else if r.check(rt, kc2) {
+						r.ev.NonTrivial(e.Name+"/"+kind+"/combined-with-comparator", func() any { return map[string]string{"range": text, "probe": probe} }, e.Name, text, probe)
+					}
+				}
 			}
 			// non-trivial: probe within one step of a boundary, 0.x base, or pre-release base
 			hp, _ := numHead3(probe)
